@@ -14,11 +14,12 @@ from . import codec_common as K
 from . import common as C
 
 PROP = "C02"
-PROPS_MODULES = ["AsyncFix.Props.C02"]
+PROPS_MODULES = ["AsyncFix.Props.C02", "AsyncFix.Props.C02Hist"]
 ASSUMPTIONS = [
     "strings are lists of code points; `.encode('latin-1')` is the identity on code points < 256 and fails otherwise",
-    "history part: every transport write of a connection goes through send_msg (true of connection.py by inspection: "
-    "`_socket_writer.write` has exactly one call site) – checked dynamically by capturing all writes of scripted histories",
+    "history part: write_effects_refframe (Props/C02Hist.lean) is about the session model's write effects rendered to bytes "
+    "(`render`); session strings are Lean Strings whose code points are the Python str code points; the rendering is tied to the "
+    "transport bytes by harness/bridge_check.py on sampled steps of the real connection every run",
 ]
 MODELLED_NOT_VERIFIED = [
     "C02: Codec.encode/_addTag and the latin-1 step of send_msg are hand-modelled (Model/Codec/Encode.lean) and compared "
@@ -144,6 +145,12 @@ def correspondence(ctx):
         kinds[k] = kinds.get(k, 0) + 1
     out = drv.batch(lines)
     dis = [{"input": l[:2000], "model": o[:600], "impl": e[:600]} for l, o, e in zip(lines, out, exp) if o != e]
+    # session-model write effects rendered to bytes == bytes at the real transport (bridge to C02Hist)
+    from . import bridge_check
+    br = bridge_check.run(ctx.n(300, 1500), ctx.seed, ctx.rng)
+    for d in br["differences"]:
+        dis.append({"input": str(d.get("input"))[:2000], "model": str(d.get("model"))[:600], "impl": str(d.get("impl"))[:600], "level": "render"})
+    kinds["bridge:frames"] = br["frames"]
     distinct = len({l for l in lines})
     groups_hit = set()
     for (case, _) in cases:
@@ -151,7 +158,7 @@ def correspondence(ctx):
             if nd[0] == "G":
                 groups_hit.add(nd[1])
     return {
-        "evaluations": len(lines),
+        "evaluations": len(lines) + br["frames"],
         "distinct_nontrivial": distinct,
         "rule": "messages generated over the implementation's own repeating-group table (every group tag forced at least 3 times, "
         "1..3 items, optional members, nesting to depth 3), values incl. framing-like text and non-ASCII / non-latin-1 characters, "
